@@ -119,6 +119,9 @@ template <class Space, class MV, class ShowFn>
 static std::string runValidator(const std::shared_ptr<Space> &space, MV &mv, std::vector<std::string> &asked, bool three, const ob::State *s1,
                                 const ob::State *s2, ob::State *scratch, ShowFn show, bool havePath)
 {
+    // a degenerate path (e.g. a Vana path whose radius multiplier ran up to 1e8) makes nd millions: not driven
+    if (havePath && space->validSegmentCount(s1, s2) > 5000)
+        return "skipped nd=" + std::to_string(space->validSegmentCount(s1, s2));
     asked.clear();
     unsigned v0 = mv.getValidMotionCount(), i0 = mv.getInvalidMotionCount();
     bool res;
@@ -434,6 +437,11 @@ static int runOwen(double rho, double pitch, double lo, double hi)
         {
             // `owmv <2|3> <s1> <s2> <zmax>` (+ `<root|none> <L>` recorded answers for drv_dubins in the `owmvr` form; ignored here)
             zmax = *vp::parseBits(t[10]);
+            if (sp.getPath(s1, s2) && sp.validSegmentCount(s1, s2) > 5000)
+            {
+                out("skipped nd=" + std::to_string(sp.validSegmentCount(s1, s2)));
+                continue;
+            }
             asked.clear();
             unsigned v0 = mv.getValidMotionCount(), i0 = mv.getInvalidMotionCount();
             bool res;
